@@ -40,9 +40,19 @@ impl ElfSectionsTag {
     /// Get an iterator over the ELF sections.
     #[must_use]
     pub const fn sections(&self) -> ElfSectionIter {
-        let string_section_offset = (self.shndx * self.entry_size) as isize;
-        let string_section_ptr =
-            unsafe { self.sections.as_ptr().offset(string_section_offset) as *const _ };
+        let entry_size = self.entry_size as usize;
+        let sections_len = self.sections.len();
+        assert!(
+            self.number_of_sections as usize * entry_size <= sections_len,
+            "The section headers must lie inside the tag. The MBI seems to be corrupt."
+        );
+        let string_section_offset = self.shndx as usize * entry_size;
+        // Without sections, no section name is ever looked up.
+        assert!(
+            self.number_of_sections == 0 || string_section_offset + entry_size <= sections_len,
+            "The string table section header must lie inside the tag. The MBI seems to be corrupt."
+        );
+        let string_section_ptr = self.sections.as_ptr().wrapping_add(string_section_offset);
         ElfSectionIter {
             current_section: self.sections.as_ptr(),
             remaining_sections: self.number_of_sections,
